@@ -1,13 +1,26 @@
 /-
-  Kernel-checked tie (C12): (*ntske.Key).IsValidAt as regenerated from /repo's Go source on
-  every run (Gen/Leaf.lean) is the model's `Key.validAt`, for every key and instant.
--/
-import ScionTime.Gen.Leaf
-import ScionTime.Model.Provider
-namespace ScionTime.LeafTieC12
-open ScionTime ScionTime.Gen.Leaf
+  Kernel-checked ties (C12): the key provider of net/ntske/provider.go — `(*Key).IsValidAt`,
+  `(*Provider).generateNext`, `(*Provider).Get`, `(*Provider).Current` — as regenerated from /repo's
+  Go source on every run (Gen/Leaf.lean, Gen/LeafNtske.lean; seventh generation of the leaf
+  translator: Go maps, the delete-while-ranging idiom, byte slices, crypto/rand as a stream,
+  `time.Now()` as one parameter per call site, struct literals with zero-valued fields, nested
+  field assignment on locals, multiple results, `if` with an init statement, calls of methods that
+  update their receiver and may panic) is the hand-written model of Model/Provider.lean: for every
+  provider state, clock reading(s) and random stream.
 
-/-- view of a generated key (ID and validity window; the secret bytes are outside the subset) -/
+  The model's state is a list of keys; the Go map is keyed by an `int` next to the key's own `ID`
+  field. `WF` says the two agree (`p.keys[id].ID == id`), which `generateNext` establishes for the
+  entry it writes and keeps for the others (`C12_leaf_generateNext_wf`).
+-/
+import ScionTime.Gen.LeafNtske
+import ScionTime.Model.Provider
+import ScionTime.Proofs.Provider
+import ScionTime.Props.C12
+import ScionTime.Proofs.GoPrelude
+namespace ScionTime.LeafTieC12
+open ScionTime ScionTime.Gen.Leaf ScionTime.GoLemmas
+
+/-- view of a generated key (ID and validity window; the secret bytes are not in the model) -/
 def key (k : S_Key) : Provider.Key := { id := k.ID.toInt, nb := k.Validity.NotBefore, na := k.Validity.NotAfter }
 
 theorem C12_leaf_IsValidAt (k : S_Key) (t : Int) :
@@ -16,8 +29,265 @@ theorem C12_leaf_IsValidAt (k : S_Key) (t : Int) :
   by_cases h1 : t < k.Validity.NotBefore <;> by_cases h2 : k.Validity.NotAfter < t <;> simp [h1, h2]
 
 /-- both verdicts occur: inside the window, before it, after it -/
-example : ntske_Key_IsValidAt { ID := 1, Validity := { NotBefore := 10, NotAfter := 20 } } 10 = true ∧
-    ntske_Key_IsValidAt { ID := 1, Validity := { NotBefore := 10, NotAfter := 20 } } 9 = false ∧
-    ntske_Key_IsValidAt { ID := 1, Validity := { NotBefore := 10, NotAfter := 20 } } 21 = false := by decide
+example : ntske_Key_IsValidAt { ID := 1, Value := [], Validity := { NotBefore := 10, NotAfter := 20 } } 10 = true ∧
+    ntske_Key_IsValidAt { ID := 1, Value := [], Validity := { NotBefore := 10, NotAfter := 20 } } 9 = false ∧
+    ntske_Key_IsValidAt { ID := 1, Value := [], Validity := { NotBefore := 10, NotAfter := 20 } } 21 = false := by decide
+
+/-- view of a generated provider as the model's state -/
+def st (p : S_Provider) : Provider.State :=
+  { keys := p.keys.entries.map (fun e => key e.2), currentId := p.currentID.toInt, generatedAt := p.generatedAt }
+
+/-- every map entry is filed under its key's own ID -/
+def WF (p : S_Provider) : Prop := ∀ e ∈ p.keys.entries, e.1 = e.2.ID
+
+theorem zero_key : key { ID := 0, Value := [], Validity := { NotBefore := Go.Time.zero, NotAfter := Go.Time.zero } } =
+    Provider.zeroKeyGo := rfl
+
+theorem find_view (l : List (Int64 × S_Key)) (hwf : ∀ e ∈ l, e.1 = e.2.ID) (id : Int64) :
+    Provider.find (l.map (fun e => key e.2)) id.toInt = (l.find? (fun e => e.1 == id)).map (fun e => key e.2) := by
+  unfold Provider.find
+  induction l with
+  | nil => rfl
+  | cons e l ih =>
+    have he := hwf e List.mem_cons_self
+    have ih := ih (fun e' h' => hwf e' (List.mem_cons_of_mem _ h'))
+    simp only [List.map_cons, List.find?_cons]
+    have : ((key e.2).id == id.toInt) = (e.1 == id) := by
+      rw [he]; simp only [key]
+      by_cases h : e.2.ID = id
+      · subst h; simp
+      · have h' : ¬ e.2.ID.toInt = id.toInt := fun hh => h (Int64.toInt_inj.mp hh)
+        rw [beq_eq_false_iff_ne.mpr h, beq_eq_false_iff_ne.mpr h']
+    rw [this]
+    cases hc : (e.1 == id)
+    · simp only [ih]
+    · rfl
+
+theorem get?_view (p : S_Provider) (hwf : WF p) (id : Int64) :
+    (p.keys.get? id).map key = Provider.find (st p).keys id.toInt := by
+  unfold st Go.Map.get?
+  rw [find_view _ hwf]
+  cases List.find? (fun e => e.1 == id) p.keys.entries <;> rfl
+
+/-- pruning: the delete-while-ranging loop is the model's `filter` -/
+theorem filter_view (m : Go.Map Int64 S_Key) (t : Int) :
+    (Go.Map.filter (fun _ k => !(!(ntske_Key_IsValidAt k t))) m).entries.map (fun e => key e.2) =
+      (m.entries.map (fun e => key e.2)).filter (fun k => k.validAt t) := by
+  unfold Go.Map.filter
+  simp only [List.filter_map, Bool.not_not]
+  congr 1
+  apply List.filter_congr
+  intro e _
+  simp [C12_leaf_IsValidAt]
+
+theorem i64_max : (9223372036854775807 : Int64).toInt = 9223372036854775807 := by decide
+theorem i64_succ (x : Int64) (h : x ≠ 9223372036854775807) : (x + 1).toInt = x.toInt + 1 := by
+  have h1 : x.toInt ≠ 9223372036854775807 := fun hh => h (Int64.toInt_inj.mp (by rw [hh, i64_max]))
+  have hu := Int64.toInt_lt x
+  have hl := Int64.le_toInt x
+  have : (1 : Int64).toInt = 1 := by decide
+  rw [toInt_add_of_fits] <;> omega
+
+theorem randRead_ok (rnd : List UInt8) (h : 32 ≤ rnd.length) :
+    Go.randRead rnd (Go.makeBytes 32) = (rnd.take 32, rnd.drop 32, 32, false) := by
+  unfold Go.randRead Go.makeBytes
+  simp only [List.length_replicate]
+  rw [if_pos h]
+  rfl
+
+/-- **generateNext** is the model's `generateNextGo`: same pruning, same overflow panic, same
+    new id, window and map update; the new key's bytes are the next 32 of the random stream,
+    which is handed back without them. Hypotheses: the map is filed by key ID; the reader
+    delivers (crypto/rand always does). -/
+theorem C12_leaf_generateNext (p : S_Provider) (hwf : WF p) (rnd : List UInt8) (h32 : 32 ≤ rnd.length) (t : Int) :
+    (ntske_Provider_generateNext p rnd t).map (fun r => (st r.1, r.2)) =
+      (Provider.generateNextGo Provider.std (st p) t).map (fun s => (s, rnd.drop 32)) := by
+  unfold ntske_Provider_generateNext Provider.generateNextGo
+  simp only [randRead_ok rnd h32]
+  by_cases hmax : p.currentID = 9223372036854775807
+  · have : (st p).currentId = Provider.maxInt := by simp [st, hmax, Provider.maxInt, i64_max]
+    simp [hmax, this]
+  · have hne : ¬ (st p).currentId = Provider.maxInt := by
+      intro hh; apply hmax; apply Int64.toInt_inj.mp; rw [i64_max]; exact hh
+    have hbeq : (p.currentID == 9223372036854775807) = false := by simp [hmax]
+    simp only [hbeq, Bool.false_eq_true, if_false, hne, bne_self_eq_false, Option.map_some]
+    simp only [Option.some.injEq, Prod.mk.injEq, and_true, st, Provider.State.mk.injEq]
+    refine ⟨?_, i64_succ _ hmax⟩
+    simp only [Go.Map.set, Go.Map.erase, List.map_cons]
+    have hk : ∀ v : List UInt8, key ({ ID := p.currentID + 1, Value := v, Validity := { NotBefore := t, NotAfter := Go.Time.add t 259200000000000 } } : S_Key) =
+        ({ id := p.currentID.toInt + 1, nb := t, na := t + Provider.std.validity } : Provider.Key) := by
+      intro v
+      simp only [key, i64_succ _ hmax, Go.Time.add, Provider.std]
+      congr 1
+    rw [hk]
+    congr 1
+    rw [← filter_view]
+    unfold Go.Map.filter
+    simp only [List.filter_map, List.filter_filter]
+    congr 1
+    apply List.filter_congr
+    intro e he
+    have hid := hwf e he
+    simp only [Function.comp, key, Bool.not_not]
+    rw [hid]
+    by_cases h : e.2.ID = p.currentID + 1
+    · simp [h, i64_succ _ hmax]
+    · have : ¬ e.2.ID.toInt = p.currentID.toInt + 1 := by
+        intro hh; apply h; apply Int64.toInt_inj.mp; rw [i64_succ _ hmax]; exact hh
+      rw [beq_eq_false_iff_ne.mpr h, beq_eq_false_iff_ne.mpr this]
+
+
+/-- `generateNext` keeps the map filed by key ID, and the new current key carries the next 32
+    bytes of the random stream -/
+theorem C12_leaf_generateNext_wf (p : S_Provider) (hwf : WF p) (rnd : List UInt8) (h32 : 32 ≤ rnd.length) (t : Int)
+    (p' : S_Provider) (rnd' : List UInt8) (h : ntske_Provider_generateNext p rnd t = some (p', rnd')) :
+    WF p' ∧ (p'.keys.get? p'.currentID).map (·.Value) = some (rnd.take 32) ∧ rnd' = rnd.drop 32 := by
+  unfold ntske_Provider_generateNext at h
+  simp only [randRead_ok rnd h32] at h
+  by_cases hmax : p.currentID = 9223372036854775807
+  · simp [hmax] at h
+  · have hbeq : (p.currentID == 9223372036854775807) = false := by simp [hmax]
+    simp only [hbeq, Bool.false_eq_true, if_false, bne_self_eq_false, Option.some.injEq, Prod.mk.injEq] at h
+    obtain ⟨rfl, rfl⟩ := h
+    refine ⟨?_, ?_, rfl⟩
+    · intro e he
+      simp only [Go.Map.set, Go.Map.erase, Go.Map.filter, List.mem_cons] at he
+      rcases he with rfl | he
+      · rfl
+      · exact hwf e (List.mem_filter.mp (List.mem_filter.mp he).1).1
+    · simp [Go.Map.get?, Go.Map.set]
+
+/-- **Get** is the model's `getGo`: `(Key{}, false)` for an id without entry or with an expired
+    one, `(key, true)` otherwise -/
+theorem C12_leaf_Get (p : S_Provider) (hwf : WF p) (id : Int64) (t : Int) :
+    (key (ntske_Provider_Get p id t).1, (ntske_Provider_Get p id t).2) = Provider.getGo (st p) id.toInt t := by
+  unfold ntske_Provider_Get Provider.getGo Go.Map.get2
+  rw [← get?_view p hwf]
+  cases hg : p.keys.get? id with
+  | none => simp [zero_key]
+  | some k =>
+    simp only [Option.map_some, Bool.not_true, Bool.false_eq_true, if_false, C12_leaf_IsValidAt]
+    cases hv : (key k).validAt t <;> simp [zero_key]
+
+theorem getD_view (p : S_Provider) (hwf : WF p) (id : Int64) (z : S_Key) (hz : key z = Provider.zeroKeyGo) :
+    key (p.keys.getD id z) = (Provider.find (st p).keys id.toInt).getD Provider.zeroKeyGo := by
+  unfold Go.Map.getD
+  rw [← get?_view p hwf]
+  cases p.keys.get? id <;> simp [hz]
+
+/-- **Current** is the model's `currentGo`: same rotation test on the first clock reading, same
+    `generateNext` on the second, same key handed out; `none` = the overflow panic -/
+theorem C12_leaf_Current (p : S_Provider) (hwf : WF p) (rnd : List UInt8) (h32 : 32 ≤ rnd.length) (t1 t2 : Int) :
+    (ntske_Provider_Current p rnd t1 t2).map (fun r => (st r.1, key r.2.2)) =
+      Provider.currentGo Provider.std (st p) t1 t2 := by
+  unfold ntske_Provider_Current Provider.currentGo
+  have hz := zero_key
+  simp only [C12_leaf_IsValidAt, getD_view p hwf _ _ hz]
+  have hcond : Go.Time.before (Go.Time.add p.generatedAt 86400000000000) t1 =
+      decide ((st p).generatedAt + Provider.std.renewal < t1) := by
+    simp only [Go.Time.before, Go.Time.add, st, Provider.std]
+    congr 1
+  rw [hcond]
+  have hcur : (st p).currentId = p.currentID.toInt := rfl
+  rw [hcur]
+  split
+  · -- renewal
+    have hgn := C12_leaf_generateNext p hwf rnd h32 t2
+    cases hg : ntske_Provider_generateNext p rnd t2 with
+    | none =>
+      rw [hg] at hgn
+      simp only [Option.map_none] at hgn
+      have : Provider.generateNextGo Provider.std (st p) t2 = none := by
+        cases hh : Provider.generateNextGo Provider.std (st p) t2 with
+        | none => rfl
+        | some _ => rw [hh] at hgn; simp at hgn
+      simp [this]
+    | some r =>
+      obtain ⟨p', rnd'⟩ := r
+      rw [hg] at hgn
+      obtain ⟨hwf', _, _⟩ := C12_leaf_generateNext_wf p hwf rnd h32 t2 p' rnd' hg
+      cases hh : Provider.generateNextGo Provider.std (st p) t2 with
+      | none => rw [hh] at hgn; simp at hgn
+      | some s' =>
+        rw [hh] at hgn
+        simp only [Option.map_some, Option.some.injEq, Prod.mk.injEq] at hgn
+        simp only [Option.bind_some, Option.map_some, getD_view p' hwf' _ _ hz, hgn.1]
+        have : p'.currentID.toInt = s'.currentId := by rw [← hgn.1]; rfl
+        rw [this]
+  · simp only [Option.bind_some, Option.map_some]
+    rw [getD_view p hwf _ _ hz]
+
+/-! ### the methods as the code has them are the state machine's on every reachable state -/
+
+open Provider in
+theorem generateNextGo_eq (P : Params) (s : State) (t : Int) (hids : ∀ k ∈ s.keys, k.id ≤ s.currentId)
+    (hmax : s.currentId ≠ maxInt) : generateNextGo P s t = some (generateNext P s t) := by
+  unfold generateNextGo generateNext
+  simp only [hmax, if_false, Option.some.injEq, State.mk.injEq, and_true, List.cons.injEq, true_and]
+  apply List.filter_eq_self.mpr
+  intro k hk
+  have := hids k (List.mem_filter.mp hk).1
+  simp only [Bool.not_eq_eq_eq_not, Bool.not_true, beq_eq_false_iff_ne, ne_eq]
+  omega
+
+open Provider in
+/-- On every state the provider reaches (`Reach`: any history of `Current`/`Get` calls with
+    non-decreasing clock readings) whose id counter has not hit `math.MaxInt`, `Current` as the
+    code has it does not panic and is the state machine's `current`. -/
+theorem C12_leaf_current_is_model {P : Params} {t0 now : Int} {s : State} (hr : Reach P t0 now s)
+    (hmax : s.currentId ≠ maxInt) (t1 t2 : Int) :
+    currentGo P s t1 t2 = some (current P s t1 t2) := by
+  have hi := reach_inv hr
+  obtain ⟨k0, rest0, hk, hid, hnb⟩ := hi.head
+  have hf := find_of_mem hi.sorted (k := k0) (by rw [hk]; exact List.mem_cons_self)
+  rw [hid] at hf
+  unfold currentGo current needsRenewal
+  simp only [hf, Option.getD_some]
+  split
+  · rw [generateNextGo_eq P s t2 (inv_ids_le hi) hmax]
+    simp only [Option.map_some, Option.some.injEq, Prod.mk.injEq, true_and]
+    have : (find (generateNext P s t2).keys (generateNext P s t2).currentId) =
+        some { id := s.currentId + 1, nb := t2, na := t2 + P.validity } := by
+      simp [generateNext, find]
+    rw [this]; rfl
+  · simp only [hf, Option.getD_some]
+
+open Provider in
+/-- … and `Get` as the code has it is the state machine's `get` (an `ok` flag instead of an option) -/
+theorem C12_leaf_get_is_model (s : State) (id t : Int) :
+    (if (getGo s id t).2 then some (getGo s id t).1 else none) = Provider.get s id t := by
+  unfold getGo Provider.get
+  cases find s.keys id with
+  | none => rfl
+  | some k => simp only; split <;> simp
+
+open Provider in
+/-- with /repo's constants the overflow panic is out of reach on every history shorter than
+    2^62 ns (146 years; the id counter is then below 53 376) — so on those histories the code's
+    `Current` is the state machine's, by `C12_leaf_current_is_model` -/
+theorem C12_leaf_no_overflow {t0 now : Int} {s : State} (hr : Reach std t0 now s)
+    (hspan : now - t0 < 4611686018427387904) : s.currentId ≠ maxInt := by
+  have h := C12.C12_id_bound (P := std) (by decide) hr
+  simp only [std] at h
+  unfold maxInt
+  omega
+
+/-- the hypotheses are met and all branches occur: a provider holding key 7 (valid 10..20) and
+    a stream of 40 bytes — `Get` finds it inside the window only; `Current` at 15 keeps it, at 25
+    rotates to key 8 carrying the first 32 bytes of the stream; at `math.MaxInt` rotation panics -/
+def exProv (id : Int64) : S_Provider :=
+  { keys := (Go.Map.empty).set id { ID := id, Value := [], Validity := { NotBefore := 10, NotAfter := 20 } },
+    currentID := id, generatedAt := 10 }
+
+example : WF (exProv 7) := by
+  intro e he; simp [exProv, Go.Map.set, Go.Map.erase, Go.Map.filter, Go.Map.empty] at he; subst he; rfl
+example : (ntske_Provider_Get (exProv 7) 7 15).2 = true ∧ (ntske_Provider_Get (exProv 7) 7 21).2 = false ∧
+    (ntske_Provider_Get (exProv 7) 8 15).2 = false := by decide
+example : (ntske_Provider_Current (exProv 7) (List.replicate 40 5) 15 16).map (fun r => (r.1.currentID, r.2.2.ID)) = some (7, 7) := by
+  decide
+example : (ntske_Provider_Current (exProv 7) (List.replicate 40 5) 25 26).map
+    (fun r => (r.1.currentID, r.2.2.ID, r.2.2.Value.length, r.2.1.length, r.2.2.Validity.NotAfter)) =
+      some (8, 8, 32, 8, 26 + 259200000000000) := by decide
+example : ntske_Provider_Current (exProv 9223372036854775807) (List.replicate 40 5) 25 26 = none := by decide
 
 end ScionTime.LeafTieC12
